@@ -60,6 +60,11 @@ def run(tier):
                     scs.append({"id": "p%d-%d" % (j, rep), "k": k, "l": "waitAck", "cause": cause, "also": also,
                                 "cls": "canceled" if cause == "ctxCancel" else "error", "done": cause != "ctxCancel"})
                     j += 1
+        # Disconnect itself while another request waits for its acknowledgement: it returns, the connection ends
+        for also in ("pub1", "pub2", "sub", "unsub", "ping"):
+            for cause in ("ctxDeadline", "ctxCancel"):
+                scs.append({"id": "d%d-%d" % (j, rep), "k": "disconnect", "l": "otherInFlight", "cause": "none", "also": also, "cls": "any", "done": True})
+                j += 1
     inp = "\n".join(json.dumps(s) for s in scs) + "\n"
     # one case at a time per process: the goroutine census is process-wide
     p = vlib.run_drive(binary, ["run", "blocking", "-j", str(vlib.NCPU), "-c", "1", "-timeout", "60s"], stdin=inp, timeout=1500)
@@ -108,7 +113,7 @@ def run(tier):
         "states": states, "transitions": gen, "traces_validated_against_impl": len(ok), "non_vacuity": nv,
         "cases_from_model": len(cases), "pair_cases": len(scs) // reps - len(cases), "unsteered": len(rep["unsteered"]),
         "evaluations": len(ok), "distinct_nontrivial": distinct,
-        "rule": "every (request kind, waiting location, cause) of Blocking.tla + pairs of simultaneously blocked calls x closing causes; distinct = distinct steered (kind, location, cause, second call)",
+        "rule": "every (request kind, waiting location, cause) of Blocking.tla x benign broker traffic before the call (unsolicited PINGRESP / foreign acknowledgements / inbound message) + pairs of simultaneously blocked calls x closing causes; distinct = distinct steered (kind, location, cause, second call)",
         "samples": [ok[0], ok[len(ok) // 2]] if ok else [], "exhaustive": True,
     }, time.time() - t0, ["A4: Transport.Write and Transport.Close return", "'promptly' = within 2 s; a missing return must reproduce on two re-runs",
                            "steering withholds the broker packet the call waits for; the goroutine census is taken with one case per process at a time"],
